@@ -27,6 +27,7 @@ import z3
 from engine import symex
 from engine.symex import SBool, SInt, Not
 from engine.vloop import VLoop
+from engine.c16life import Env, Loop
 
 from aioslsk.client import SoulSeekClient
 from aioslsk.commands import GetUserStatusCommand, JoinRoomCommand, PrivateMessageCommand
@@ -35,13 +36,14 @@ from aioslsk.events import EventBus, SessionInitializedEvent
 from aioslsk.exceptions import InvalidSessionError, MessageDeserializationError
 from aioslsk.interest.manager import InterestManager
 from aioslsk.network.connection import (
-    ConnectionState, DataConnection, PeerConnection, PeerConnectionType)
+    CloseReason, ConnectionState, DataConnection, PeerConnection, PeerConnectionType)
 from aioslsk.network.network import Network
 from aioslsk.protocol.messages import (
     AddHatedInterest, AddInterest, AddUser, BranchLevel, BranchRoot, GetUserStatus, JoinRoom, Kicked, LeaveRoom,
-    Login, RemoveHatedInterest, RemoveInterest, RemoveUser, ServerMessage, SetListenPort,
+    Login, MinParentsInCache, DistributedAliveInterval, ParentInactivityTimeout, ParentMinSpeed, ParentSpeedRatio,
+    Ping, PotentialParents, PrivilegedUsers, RoomList, UserJoinedRoom, RemoveHatedInterest, RemoveInterest, RemoveUser, ServerMessage, SetListenPort,
     SetStatus, SharedFoldersFiles, ToggleParentSearch, TogglePrivateRoomInvites)
-from aioslsk.protocol.primitives import UserStats
+from aioslsk.protocol.primitives import PotentialParent, UserStats
 from aioslsk.room.manager import RoomManager
 from aioslsk.search.manager import SearchManager
 from aioslsk.settings import (
@@ -51,6 +53,7 @@ from aioslsk.shares.manager import SharesManager
 from aioslsk.shares.model import SharedItem
 from aioslsk.transfer.manager import TransferManager
 from aioslsk.user.manager import UserManager, UserTrackingManager
+from aioslsk.user.model import TrackingFlag, TrackingState
 
 PROPERTY = 'C16'
 
@@ -565,6 +568,357 @@ def _run_and_check(c, loop, logs, g, r, reply, add_user, cmd):
 
 
 # ------------------------------------------------------------------------------------------------
+# sentences 2-4: loss of the server connection, reconnect decision, stop() finality
+#
+# Technique, stated plainly: the data (reconnect.auto, both login verdicts, the values of the server-sent
+# parameters) is symbolic and flows through the real code; the POSITION of the fault (loop step of the
+# real login burst, idle, while the watchdog sleeps, with connects pending), the KIND of fault and the
+# environment outcomes are enumerated injection points on the real code running on the virtual loop.
+# ------------------------------------------------------------------------------------------------
+
+UNREQUESTED = ('UNKNOWN', 'CONNECT_FAILED', 'READ_ERROR', 'WRITE_ERROR', 'TIMEOUT')
+T_SETTLE = 3.0        # after the fault: long enough for every handler, shorter than the reconnect delay
+T_RECONNECT = 13.0    # watchdog: poll <= 0.5 s + reconnect.timeout 10 s + the login burst
+T_AFTER_STOP = 70.0   # > PEER_INDIRECT_CONNECT_TIMEOUT (60 s) and > PEER_CONNECT_TIMEOUT: anything left would show
+
+
+def fault_is_unrequested(fault):
+    """the reference for sentence 3: what counts as an unrequested loss"""
+    if fault.startswith('drop:'):
+        return fault[5:] in UNREQUESTED
+    return fault in ('reset', 'write')       # READ_ERROR / WRITE_ERROR through the real read / write path
+
+
+def inject(env, fault):
+    """the fault itself; returns the stop() task when the fault is stop()"""
+    net, client = env.net, env.client
+    net.log('FAULT', fault)
+    if fault.startswith('drop:'):       # another task of the library detects the failure and closes
+        env.spawn(env.conn.disconnect(CloseReason[fault[5:]]), 'fault')
+    elif fault == 'eof':                # the server closes its end: seen by the next / pending read
+        if net.current is not None:
+            net.current.pipe.feed_eof()
+    elif fault == 'reset':              # connection reset: the next / pending read raises
+        if net.current is not None:
+            net.current.pipe.feed_error(ConnectionResetError('injected'))
+    elif fault == 'write':              # every further write on this connection fails
+        if net.current is not None:
+            net.current.writes_fail = True
+            # make sure something is written even when the client is idle
+            env.spawn(_swallow(client.network.send_server_messages(Ping.Request())), 'poke')
+    elif fault == 'disconnect':         # the application asks for it
+        env.spawn(client.network.disconnect_server(), 'fault')
+    elif fault == 'stop':
+        return env.spawn(client.stop(), 'stop')
+    else:
+        raise symex.HarnessError(fault)
+    return None
+
+
+async def _swallow(coro):
+    try:
+        await coro
+    except Exception:  # noqa
+        pass
+
+
+def probe_refusal(c, env, when):
+    """execute() without a session: InvalidSessionError and nothing written"""
+    before = env.net.frames_written
+    t = env.spawn(env.client.execute(GetUserStatusCommand('dave')), 'probe')
+    env.loop.run_ready()
+    ob(c, t.done() and not t.cancelled() and isinstance(t.exception(), InvalidSessionError),
+       'refused_without_session', sig=[when, 'GetUserStatus', 'no_InvalidSessionError'])
+    ob(c, env.net.frames_written == before, 'refused_without_session', sig=[when, 'GetUserStatus', 'sent_anyway'])
+    if not t.done():
+        t.cancel()
+
+
+def session_holders(client):
+    out = []
+    for name in ('users', 'rooms', 'interests', 'shares', 'transfers', 'peers', 'searches', 'server_manager',
+                 'distributed_network', 'network'):
+        m = getattr(client, name, None)
+        if m is not None and hasattr(m, '_session'):
+            out.append((name, m))
+    return out
+
+
+def check_session(c, env, when, fault, phase):
+    """sentence 2, first half, at a quiescent instant"""
+    client, sx = env.client, [fault, phase, when]
+    ini, des = env.initialized, env.destroyed
+    cur = client.session
+    ob(c, len({id(s) for s in des}) == len(des), 'session_destroyed_exactly_once', sig=sx + ['destroyed_twice'],
+       info={'initialised': len(ini), 'destroyed': len(des)})
+    ob(c, all(any(s is i for i in ini) for s in des), 'session_destroyed_exactly_once', sig=sx + ['destroyed_unknown_session'])
+    gone = [s for s in ini if s is not cur]
+    ob(c, all(any(s is d for d in des) for s in gone), 'session_destroyed_exactly_once', sig=sx + ['never_destroyed'],
+       info={'initialised': len(ini), 'destroyed': len(des), 'session_present': cur is not None})
+    ob(c, cur is None or not any(cur is d for d in des), 'session_destroyed_exactly_once', sig=sx + ['destroyed_but_kept'])
+    # SoulSeekClient.session: present iff logged in on the current server connection
+    ob(c, cur is None or (env.conn.state == ConnectionState.CONNECTED and len(ini) > 0 and cur is ini[-1]),
+       'session_only_on_live_connection', sig=sx + [env.conn.state.name],
+       info={'state': env.conn.state.name, 'initialised': len(ini), 'destroyed': len(des)})
+    for name, m in session_holders(client):
+        ob(c, m._session is cur, 'managers_session_cleared',
+           sig=sx + [name, 'stale' if m._session is not None else 'missing'])
+    if cur is None:
+        c.reach('no_session_' + when)
+        probe_refusal(c, env, when)
+
+
+def server_state_cleared(c, env, when, fault, phase, names, rooms):
+    """sentence 2, second half: users, rooms, tracking, server-sent distributed parameters"""
+    client, sx = env.client, [fault, phase, when]
+    ob(c, client.users.users == {}, 'users_cleared', sig=sx + ['users'], info=sorted(client.users.users))
+    ob(c, client.users.privileged_users == set(), 'users_cleared', sig=sx + ['privileged_users'])
+    ob(c, client.rooms.rooms == {}, 'rooms_cleared', sig=sx, info=sorted(client.rooms.rooms))
+    for u in names:
+        ob(c, client.users.get_tracking_state(u) == TrackingState.UNTRACKED
+           and client.users.get_tracking_flags(u) == TrackingFlag(0), 'tracking_cleared', sig=sx)
+    dn = client.distributed_network
+    for attr in DIST_PARAMS:
+        ob(c, getattr(dn, attr) is None, 'distributed_parameters_cleared', sig=sx + [attr])
+
+
+def _no_pending_task(c, env, sx):
+    """no task started by the library is pending; one obligation per kind of task that is left"""
+    left = {}
+    for t in env.library_tasks():
+        left.setdefault(getattr(t.get_coro(), '__qualname__', '?'), []).append(t.get_name())
+    if not left:
+        ob(c, True, 'stopped_no_pending_task', sig=sx + ['none'])
+    for kind in sorted(left):
+        ob(c, False, 'stopped_no_pending_task', sig=sx + [kind], info=left[kind])
+
+
+def check_stopped(c, env, stop_task, fault, phase, pending):
+    """sentence 4"""
+    loop, net, sx = env.loop, env.net, [fault, phase, pending]
+    n = 0
+    while not stop_task.done() and n < 40:        # fakes close at once; DISCONNECT_TIMEOUT is 5 s
+        loop.advance(0.5)
+        n += 1
+    loop.run_ready()
+    c.reach('stopped')
+    ob(c, stop_task.done() and not stop_task.cancelled() and stop_task.exception() is None, 'stop_returns', sig=sx,
+       info=repr(stop_task.exception()) if stop_task.done() and not stop_task.cancelled() else 'not finished')
+    t_stop = loop.time()
+    net.log('STOP RETURNED')
+    ob(c, net.open_connections() == [], 'stopped_no_open_connection', sig=sx + ['at_return'], info=net.open_connections())
+    _no_pending_task(c, env, sx + ['at_return'])
+    check_session(c, env, 'after_stop', fault, phase)
+    loop.advance(T_AFTER_STOP)
+    later = [o for o in net.opens if o[0] > t_stop] + [('server attempt', t) for t in net.server_attempts if t > t_stop]
+    ob(c, later == [], 'stopped_nothing_opened_later', sig=sx, info=repr(later))
+    ob(c, net.open_connections() == [], 'stopped_no_open_connection', sig=sx + ['later'], info=net.open_connections())
+    _no_pending_task(c, env, sx + ['later'])
+    ob(c, env.client.session is None, 'session_only_on_live_connection', sig=sx + ['after_stop_later'])
+    ob(c, len(env.initialized) == len(env.destroyed), 'session_destroyed_exactly_once', sig=sx + ['after_stop_later'],
+       info={'initialised': len(env.initialized), 'destroyed': len(env.destroyed)})
+
+
+def _goto_fine(c, env, tag, max_steps=400):
+    """step the loop one callback at a time; before each callback a flip decides `inject here`.
+    returns True when a point was chosen, False when the loop went quiet first"""
+    loop, n = env.loop, 0
+    while loop.has_ready():
+        if bool(c.fresh_bool(f'{tag}_at_step{n}')):
+            env.net.log('inject before loop step', n)
+            return True
+        loop.step()
+        n += 1
+        if n > max_steps:
+            raise symex.BoundHit('fine stepping bound')
+    return False
+
+
+def _cleanup(loop):
+    """VLoop.cleanup cancels what is left; a task that waits for a gather containing itself (a defect this
+    check reports through its obligations) makes Task.cancel recurse without end"""
+    try:
+        loop.cleanup()
+    except RecursionError:
+        loop.created_tasks.clear()
+        loop._ready.clear()
+        loop._timers.clear()
+
+
+def _lose_and_wait_for_reconnect(c, env, mode):
+    """an unrequested loss, then on to the point where the fault (stop) is injected:
+    'watchdog'     -> while the watchdog waits before reconnecting (0.2 s / 5 s into the 10 s)
+    'reconnecting' -> at every loop step from the instant the reconnect starts to the end of the re-login"""
+    loop, net = env.loop, env.net
+    env.spawn(env.conn.disconnect(CloseReason.READ_ERROR), 'first-loss')
+    if mode == 'watchdog':
+        loop.advance([0.2, 5.0][c.choose(2, 'watchdog_wait')])
+        return
+    loop.run_ready()
+    n0 = len(net.server_attempts)
+    while len(net.server_attempts) == n0:
+        if loop.has_ready():
+            loop.step()
+        elif loop.next_timer() is None or loop.time() > 30:
+            return                      # no reconnect on this path (auto off): nothing to step through
+        else:
+            loop.jump()
+    if not _goto_fine(c, env, 'fault'):
+        c.reach('reconnect_quiet')
+
+
+def h_loss(c, fault='drop:READ_ERROR', phase='burst', pending='none', server_plan='ok'):
+    """start() -> [login()] -> fault at an injection point -> settle -> (reconnect?) -> stop()"""
+    A = c.fresh_bool('reconnect_auto')
+    ok1, ok2 = c.fresh_bool('login_accepted'), c.fresh_bool('relogin_accepted')
+    plan = {'ok': lambda i: 'ok', 'refuse_once': lambda i: 'refuse' if i == 1 else 'ok'}[server_plan]
+    if phase in ('watchdog', 'reconnecting') and fault != 'stop':
+        raise symex.HarnessError('only stop() is injected while a reconnect is under way')
+    loop = Loop()
+    env = Env(c, loop, A, lambda i: ok1 if i == 0 else ok2, plan, search_timeout=30 if pending == 'search' else 0)
+    client, net = env.client, env.net
+    try:
+        with captured_logs() as logs, net:
+            st = env.spawn(client.start(), 'start')
+            loop.run_ready()
+            if not (st.done() and st.exception() is None and env.conn.state == ConnectionState.CONNECTED):
+                raise symex.HarnessError(f'client did not start: {st}')
+            injected = False
+            if phase == 'pre_login':
+                c.reach('fault_pre_login')
+            else:
+                env.spawn(client.login(), 'login')
+                if phase == 'burst' and _goto_fine(c, env, 'fault'):
+                    c.reach('fault_during_burst')
+                    injected = True
+                if not injected:
+                    # the burst is over and the loop is quiet
+                    loop.advance(1.0)
+                    if pending == 'parents':
+                        net.current.pipe.feed(PotentialParents.Response([PotentialParent('pp1', '10.1.1.1', 2234)]))
+                        loop.advance(1.0)
+                    elif pending == 'search' and client.session is not None:
+                        env.spawn(client.searches.search('some query'), 'search')
+                        loop.advance(1.0)
+                    if phase in ('watchdog', 'reconnecting'):
+                        _lose_and_wait_for_reconnect(c, env, phase)
+                    c.reach('fault_' + ('idle' if phase == 'burst' else phase))
+            stop_task = inject(env, fault)
+            t_fault = loop.time()
+
+            if stop_task is not None:
+                check_stopped(c, env, stop_task, fault, phase, pending)
+            else:
+                # ---- right after the fault (no reconnect can have happened yet) ----------------------------
+                loop.advance(T_SETTLE)
+                if fault in ('eof', 'reset') and env.conn.state == ConnectionState.CONNECTED and client.session is None:
+                    # nobody reads the connection after a rejected login: the server's EOF / reset goes unnoticed.
+                    # Not a loss in the sense of the property; nothing to check on this path but stop()
+                    c.reach('fault_unnoticed_without_reader')
+                    check_stopped(c, env, env.spawn(client.stop(), 'stop'), fault + '+stop', phase, pending)
+                    return
+                ob(c, env.conn.state == ConnectionState.CLOSED, 'fault_closes_connection', sig=[fault, phase],
+                   info=env.conn.state.name)
+                check_session(c, env, 'after_loss', fault, phase)
+                server_state_cleared(c, env, 'after_loss', fault, phase, ['alice', OWN], ['r1'])
+                # ---- sentence 3: the reconnect decision ---------------------------------------------------------
+                loop.advance(T_RECONNECT + (11.0 if server_plan == 'refuse_once' else 0.0))
+                reconnected = any(t > t_fault for t in net.server_attempts)
+                want = symex.And(A, fault_is_unrequested(fault))
+                c.reach('reconnected' if reconnected else 'not_reconnected')
+                ob(c, want if reconnected else Not(want), 'reconnect_iff_unrequested_loss_and_auto',
+                   sig=[fault, phase, 'reconnected' if reconnected else 'not_reconnected'],
+                   info={'attempts': net.server_attempts, 'fault_at': t_fault})
+                if reconnected:
+                    ob(c, env.conn.state == ConnectionState.CONNECTED, 'relogin_after_reconnect',
+                       sig=[fault, phase, 'not_connected'], info=env.conn.state.name)
+                    relogin = any(isinstance(m, Login.Request) for m in net.current.received)
+                    ob(c, relogin, 'relogin_after_reconnect', sig=[fault, phase, 'no_login'])
+                    n_logins = sum(1 for sd in net.server_sides for m in sd.received if isinstance(m, Login.Request))
+                    accepted = ok1 if n_logins <= 1 else ok2          # the server's verdict on the latest login
+                    present = client.session is not None
+                    ob(c, accepted if present else Not(accepted), 'session_iff_login_accepted',
+                       sig=['relogin', 'session' if present else 'no_session'])
+                check_session(c, env, 'settled', fault, phase)
+                # ---- sentence 4 --------------------------------------------------------------------------------------
+                check_stopped(c, env, env.spawn(client.stop(), 'stop'), fault + '+stop', phase, pending)
+            for name, msg, e in logs.records[:8]:
+                c.note('log', name, msg, repr(e))
+            for ev in net.events[-60:]:
+                c.note(*ev)
+    finally:
+        _cleanup(loop)
+
+
+DIST_PARAMS = ('parent_min_speed', 'parent_speed_ratio', 'min_parents_in_cache', 'parent_inactivity_timeout',
+               'distributed_alive_interval')
+DIST_MESSAGES = {'parent_min_speed': lambda v: ParentMinSpeed.Response(v),
+                 'parent_speed_ratio': lambda v: ParentSpeedRatio.Response(v),
+                 'min_parents_in_cache': lambda v: MinParentsInCache.Response(v),
+                 'parent_inactivity_timeout': lambda v: ParentInactivityTimeout.Response(v),
+                 'distributed_alive_interval': lambda v: DistributedAliveInterval.Response(v)}
+
+
+def h_reset(c, fault='drop:READ_ERROR'):
+    """one step from a server-derived state built from symbolic pieces through the real handlers:
+    after the loss everything the statement lists is cleared, whatever the values were"""
+    ok1 = c.fresh_bool('login_accepted')
+    loop = Loop()
+    env = Env(c, loop, False, lambda i: ok1)
+    client, net = env.client, env.net
+    try:
+        with captured_logs() as logs, net:
+            env.spawn(client.start(), 'start')
+            loop.run_ready()
+            env.spawn(client.login(), 'login')
+            loop.advance(1.0)
+            pipe = net.current.pipe
+            # server-sent distributed parameters: each one received or not, any uint32 value
+            for attr in DIST_PARAMS:
+                if c.fresh_bool(f'has_{attr}'):
+                    pipe.feed(DIST_MESSAGES[attr](c.fresh_int(attr, 0, 2 ** 32 - 1)))
+            # users known from rooms / privileges, rooms known from the room list / joins
+            held = []
+            if c.fresh_bool('has_privileged_users'):
+                pipe.feed(PrivilegedUsers.Response(['bob', 'erin']))
+            if c.fresh_bool('has_room_users'):
+                pipe.feed(UserJoinedRoom.Response('r1', 'bob', 2, UserStats(1, 2, 3, 4), 1, 'BE'))
+                pipe.feed(UserJoinedRoom.Response('r2', 'carol', 1, UserStats(1, 2, 3, 4), 0, 'NL'))
+            if c.fresh_bool('has_room_list'):
+                pipe.feed(RoomList.Response(rooms=['r1', 'r3'], rooms_user_count=[1, 2], rooms_private_owned=[],
+                                            rooms_private_owned_user_count=[], rooms_private=[], rooms_private_user_count=[],
+                                            rooms_private_operated=[]))
+            loop.advance(0.5)
+            # tracking requested by the application (kept alive by a reference, like a GUI would)
+            if c.fresh_bool('has_tracked_user'):
+                env.spawn(client.users.track_user('dave', TrackingFlag.REQUESTED), 'track')
+                loop.advance(0.5)
+            held.extend(client.users.users.values())
+            held.extend(client.rooms.rooms.values())
+            had_session = client.session is not None
+            c.reach('with_session' if had_session else 'without_session')
+            stop_task = inject(env, fault)
+            if stop_task is not None:
+                raise symex.HarnessError('h_reset is about losses, not stop()')
+            loop.advance(T_SETTLE)
+            if fault in ('eof', 'reset') and env.conn.state == ConnectionState.CONNECTED and client.session is None:
+                c.reach('fault_unnoticed_without_reader')     # see h_loss
+                return
+            ob(c, env.conn.state == ConnectionState.CLOSED, 'fault_closes_connection', sig=[fault, 'reset'],
+               info=env.conn.state.name)
+            c.reach('lost')
+            check_session(c, env, 'after_loss', fault, 'reset')
+            ob(c, len(env.destroyed) == (1 if had_session else 0), 'session_destroyed_exactly_once',
+               sig=[fault, 'reset', 'count'], info={'destroyed': len(env.destroyed), 'had_session': had_session})
+            server_state_cleared(c, env, 'after_loss', fault, 'reset', ['alice', 'dave', 'bob', OWN], ['r1', 'r2', 'r3'])
+            del held
+            for name, msg, e in logs.records[:8]:
+                c.note('log', name, msg, repr(e))
+    finally:
+        _cleanup(loop)
+
+
+# ------------------------------------------------------------------------------------------------
 # prelude: the symbolic-mode codec bypass must show the server the same thing as the real codec
 # ------------------------------------------------------------------------------------------------
 
@@ -737,4 +1091,48 @@ def jobs(tier):
         # real get_stats over every directory shape together with the other symbolic groups (1 candidate name)
         for p in ('none', 'both'):
             out.append(_job(ok, sym=allg, n=1, ports=p, shares='shapes'))
+    return out + life_jobs(tier)
+
+
+ALL_REASONS = ['UNKNOWN', 'CONNECT_FAILED', 'REQUESTED', 'READ_ERROR', 'WRITE_ERROR', 'TIMEOUT', 'EOF']
+
+
+def _ljob(fn, name, requires, **params):
+    return {'harness': name, 'fn': fn, 'params': params, 'requires': requires}
+
+
+def life_jobs(tier):
+    """sentences 2-4.  Injection points are enumerated: see the comment above h_loss"""
+    q = tier == 'quick'
+    out = []
+    lost = ['no_session_after_loss', 'stopped']
+    # (a)+(c)+(d) fault at EVERY loop step of the real login burst, then idle
+    fine = ['drop:READ_ERROR', 'drop:REQUESTED', 'drop:EOF', 'write', 'eof', 'disconnect'] if q else \
+        ['drop:' + r for r in ALL_REASONS] + ['write', 'eof', 'reset', 'disconnect']
+    for f in fine:
+        out.append(_ljob(h_loss, 'loss', lost + ['fault_during_burst', 'fault_idle'], fault=f, phase='burst'))
+    out.append(_ljob(h_loss, 'loss', ['stopped', 'fault_during_burst', 'fault_idle'], fault='stop', phase='burst'))
+    # every close reason before the login and while idle (with and without work pending)
+    for r in ALL_REASONS:
+        out.append(_ljob(h_loss, 'loss', lost + ['fault_pre_login'], fault='drop:' + r, phase='pre_login'))
+        for pend in (['none'] if q else ['none', 'parents', 'search']):
+            out.append(_ljob(h_loss, 'loss', lost + ['fault_idle'], fault='drop:' + r, phase='idle', pending=pend))
+    for f in ('reset', 'eof', 'write', 'disconnect'):
+        out.append(_ljob(h_loss, 'loss', ['stopped', 'fault_idle'], fault=f, phase='idle'))
+        out.append(_ljob(h_loss, 'loss', ['stopped', 'fault_pre_login'], fault=f, phase='pre_login'))
+    # the first reconnect attempt is refused
+    for f in ('drop:READ_ERROR', 'drop:EOF'):
+        out.append(_ljob(h_loss, 'loss', lost, fault=f, phase='idle', server_plan='refuse_once'))
+    # (d) stop() at every kind of point
+    out.append(_ljob(h_loss, 'loss', ['stopped', 'fault_pre_login'], fault='stop', phase='pre_login'))
+    for pend in ('none', 'parents', 'search'):
+        out.append(_ljob(h_loss, 'loss', ['stopped', 'fault_idle'], fault='stop', phase='idle', pending=pend))
+    out.append(_ljob(h_loss, 'loss', ['stopped', 'fault_watchdog'], fault='stop', phase='watchdog'))
+    out.append(_ljob(h_loss, 'loss', ['stopped', 'fault_reconnecting'], fault='stop', phase='reconnecting'))
+    if not q:
+        out.append(_ljob(h_loss, 'loss', ['stopped', 'fault_watchdog'], fault='stop', phase='watchdog', pending='parents'))
+        out.append(_ljob(h_loss, 'loss', ['stopped'], fault='stop', phase='reconnecting', server_plan='refuse_once'))
+    # (b) one step from a server-derived state with symbolic values
+    for f in (['drop:READ_ERROR', 'drop:REQUESTED', 'eof'] if q else ['drop:' + r for r in ALL_REASONS] + ['eof', 'reset', 'write', 'disconnect']):
+        out.append(_ljob(h_reset, 'reset', ['lost', 'with_session', 'without_session'], fault=f))
     return out
